@@ -120,6 +120,23 @@ def prepare(tier):
 
 # --------------------------------------------------------------------- world
 
+import _thread as _thread_mod
+_LOCK_TYPES = (type(_thread_mod.allocate_lock()), _thread_mod.RLock)
+
+
+def _copy_state(state):
+    """Deep copy of a process's module data; locks are not copied but made anew
+    (unlocked), as they are in a forked or freshly started process."""
+    import copy
+    out = {}
+    for name, val in state.items():
+        if isinstance(val, _LOCK_TYPES):
+            out[name] = _thread_mod.RLock() if isinstance(val, _thread_mod.RLock) else _thread_mod.allocate_lock()
+        else:
+            out[name] = copy.deepcopy(val)
+    return out
+
+
 class World(object):
     """Everything one run shares: directories, seams' callbacks, oracles."""
 
@@ -163,7 +180,8 @@ class World(object):
         for name, val in list(vars(kd).items()):
             if name.startswith("__") or name in self.SEAM_NAMES:
                 continue
-            if isinstance(val, (dict, list, set)):
+            if isinstance(val, (dict, list, set)) or isinstance(val, _LOCK_TYPES):
+                # (an in-process lock belongs to one process: each simulated process gets its own)
                 out[name] = val
             elif isinstance(val, (int, float, str, bool, tuple, type(None))) and not name.isupper():
                 out[name] = val
@@ -171,7 +189,7 @@ class World(object):
 
     def init_private_state(self):
         import copy
-        self._pristine = copy.deepcopy(self._module_data())
+        self._pristine = _copy_state(self._module_data())
         self._names = set(self._pristine)
 
     def switch_out(self, a):
@@ -192,10 +210,10 @@ class World(object):
             src = a.data.get("forked_from")
             parent = self.sched.by_name.get(src) if src else None
             if parent is not None and parent.data.get("modstate") is not None:
-                st = copy.deepcopy(parent.data["modstate"])
+                st = _copy_state(parent.data["modstate"])
                 self.probe("forked_child_inherits_module_state")
             else:
-                st = copy.deepcopy(self._pristine)
+                st = _copy_state(self._pristine)
             a.data["modstate"] = st
         for name in self._names:
             if name in st:
@@ -638,7 +656,7 @@ def run_one(cfg, decisions=None, keep_events=False):
     run_dir = os.path.join(G["root"], "w%d-r%d" % (os.getpid(), G["run_counter"]))
     os.makedirs(run_dir)
     world = World(cfg, run_dir)
-    saved = (kd.subprocess, kd.ct, kd.os, kd.tempfile, kd.SAS_DLL_PATH)
+    saved_path = kd.SAS_DLL_PATH
     had_open = "open" in vars(kd)
     saved_open = vars(kd).get("open")
 
@@ -651,10 +669,15 @@ def run_one(cfg, decisions=None, keep_events=False):
             pass
         return f
     kd.open = tracked_open
-    kd.subprocess = seams.SubprocessShim(world)
-    kd.ct = seams.CtProxy(world)
-    kd.os = seams.OsProxy(world)
-    kd.tempfile = seams.TempfileProxy(world)
+    # the seams: whatever names the module under test uses for os, subprocess, tempfile
+    # and ctypes (modules under any alias, or functions imported from them) are bound
+    # to the simulator's stand-ins
+    real = seams.real_modules()
+    os_proxy = seams.OsProxy(world)
+    rebound = seams.rebind_from_imports(kd, [(real["os.path"], os_proxy.path), (real["os"], os_proxy),
+                                             (real["subprocess"], seams.SubprocessShim(world)),
+                                             (real["tempfile"], seams.TempfileProxy(world)),
+                                             (real["ctypes"], seams.CtProxy(world))])
     kd.SAS_DLL_PATH = world.cache_dir
     G["names"][0] = 0
     import atexit as _atexit
@@ -793,7 +816,9 @@ def run_one(cfg, decisions=None, keep_events=False):
         _atexit.register = real_register
         if xdev_saved is not None:
             os.rename, os.replace, os.link = xdev_saved
-        kd.subprocess, kd.ct, kd.os, kd.tempfile, kd.SAS_DLL_PATH = saved
+        kd.SAS_DLL_PATH = saved_path
+        for name, val in rebound.items():
+            setattr(kd, name, val)
         if had_open:
             kd.open = saved_open
         else:
